@@ -67,6 +67,9 @@ def run_sequence(case):
                 break
             except Exception as e:  # noqa: BLE001
                 info["raised"] = type(e).__name__
+                if call >= ncalls:
+                    info["raised"] = "second-space:" + type(e).__name__   # an implementation may refuse a new space without reset(): not judged
+                    break
                 if regular and call == 0 or (regular and L.is_regular(pts, losses)):
                     v.append(("raises-on-regular-history", f"call {call}: {type(e).__name__}: {e}"))
                 break
